@@ -206,3 +206,22 @@ Proof.
   - intros limit stop m d comb evs ks rs ce m' bs R G E.
     exact (proxy_history_hit H limit stop m d comb evs ks rs ce m' bs R G E).
 Qed.
+
+Lemma explorers_complete (H : str -> str -> str) :
+  (forall big sched fuel st st',
+     crun H st (map (fun i => (i, big)) sched) = Some st' -> (forall i, cstep H st' i big = None) ->
+     (length sched < fuel)%nat -> In st' (explore H fuel big st)) /\
+  (forall sched fuel st st',
+     mrun H st sched = Some st' -> (forall i, mstep H st' i = None) ->
+     (length sched < fuel)%nat -> In st' (explore_m H fuel st)) /\
+  (forall sched fuel st st',
+     frun H st sched = Some st' -> (forall i, fstep H st' i = None) ->
+     (length sched < fuel)%nat -> In st' (explore_f H fuel st)) /\
+  (forall st, Forall (fun t => exists r, t_pc t = PDone r) (c_thr st) -> ingest_files st = []).
+Proof.
+  split; [|split; [|split]].
+  - intros big sched fuel st st'. apply explore_complete.
+  - intros sched fuel st st'. apply explore_m_complete.
+  - intros sched fuel st st'. apply explore_f_complete.
+  - apply ingest_empty_when_done.
+Qed.
